@@ -21,7 +21,64 @@ import itertools, os, re, sys, time
 import z3
 
 W = 64
-bv = lambda v: z3.BitVecVal(v, W)
+# Numeric back-end. 'bv': 64-bit bit-vectors (machine semantics). 'int': mathematical integers constrained to [0, 2^64) with the
+# wrap conditions made explicit (overflow flag <=> exact result >= 2^64) - used for the multiply/divide kernels, where bit-blasting
+# a symbolic x symbolic product does not finish.
+MODE = ['bv']
+RANGE = []          # range facts for every integer symbol created in 'int' mode (added to the initial path condition)
+TWO64 = 2 ** 64
+
+
+def set_mode(m):
+    MODE[0] = m
+
+
+def is_int():
+    return MODE[0] == 'int'
+
+
+def bv(v):
+    return z3.IntVal(v) if is_int() else z3.BitVecVal(v, W)
+
+
+def mkint(name):
+    if is_int():
+        x = z3.Int(name)
+        RANGE.append(z3.And(x >= 0, x < TWO64))
+        return x
+    return z3.BitVec(name, W)
+
+
+def ULE(a, b):
+    return a <= b if z3.is_int(a) or z3.is_int(b) else z3.ULE(a, b)
+
+
+def ULT(a, b):
+    return a < b if z3.is_int(a) or z3.is_int(b) else z3.ULT(a, b)
+
+
+def UGE(a, b):
+    return a >= b if z3.is_int(a) or z3.is_int(b) else z3.UGE(a, b)
+
+
+def UGT(a, b):
+    return a > b if z3.is_int(a) or z3.is_int(b) else z3.UGT(a, b)
+
+
+def ADDOK(a, b):
+    return a + b < TWO64 if z3.is_int(a) or z3.is_int(b) else z3.BVAddNoOverflow(a, b, False)
+
+
+def MULOK(a, b):
+    return a * b < TWO64 if z3.is_int(a) or z3.is_int(b) else z3.BVMulNoOverflow(a, b, False)
+
+
+def LSHR(a, b):
+    if z3.is_int(a):
+        if z3.is_int_value(b):
+            return a / (2 ** b.as_long())
+        raise NotImplementedError('shift by a symbolic amount in integer mode')
+    return z3.LShR(a, b)
 
 
 # =============================================================================================== parsing
@@ -163,7 +220,7 @@ class Opaque:
 
 
 UNIT = ('unit',)
-DISCR = {'None': 0, 'Some': 1, 'Ok': 0, 'Err': 1}
+DISCR = {'None': 0, 'Some': 1, 'Ok': 0, 'Err': 1, 'Continue': 0, 'Break': 1}
 
 
 def deep(v):
@@ -247,8 +304,8 @@ class Exec:
         s.discharged = []        # [(kind, where)] obligations proved
         s.index, s.closures, s.defaults = {}, {}, {}
         s.V = None               # virtual array of values produced by caller code
-        s.S = z3.BitVec('size_of_T', W)
-        s.SZ = z3.BitVec('size_of_array', W)
+        s.S = mkint('size_of_T')
+        s.SZ = mkint('size_of_array')
         s.needs_drop = {}        # type param -> Bool
         s.self_binding = None    # for trait default bodies: what `Self` is ('GenericArray' / '&GenericArray' ...)
         s.unwind_edges = 0
@@ -310,7 +367,11 @@ class Exec:
 
     def find_fn(s, c):
         c = norm(c)
+        c = re.sub(r"for<'a> fn\(&'a T\) -> T \{<T as Clone>::clone\}", 'CloneFn', c)
         c = re.sub(r'::<[^<>]*(<[^<>]*(<[^<>]*(<[^<>]*>[^<>]*)*>[^<>]*)*>[^<>]*)*>$', '', c)  # trailing method generics
+        m = re.match(r'^<<<Self as MappedGenericSequence<.*>>::Mapped as GenericSequence<.*>>::Sequence as FromIterator<.*>>::from_iter', c)
+        if m and s.self_binding:
+            return s.pick(s.index.get(('FromIterator', s.self_binding.replace('&mut ', '').replace('&', ''), 'from_iter')))
         m = re.match(r'^<<<(\w+)<.* as MappedGenericSequence<.*>>::Mapped as GenericSequence<.*>>::Sequence as FromIterator<.*>>::from_iter', c)
         if m:
             return s.pick(s.index.get(('FromIterator', m.group(1), 'from_iter')))
@@ -320,14 +381,15 @@ class Exec:
         m = re.match(r'^<(&mut |&)?(\w+)<.*> as (\w+)(?:<.*>)?>::(\w+)$', c)
         if m:
             pre, head, trait, meth = m.group(1) or '', m.group(2), m.group(3), m.group(4)
-            for key in ((trait, pre + head, meth), (trait, head, meth)):
-                if key in s.index:
-                    if key[1] == head and pre and (trait, pre + head, meth) not in s.index:
-                        # `&mut I` forwarding impls of core (Iterator for &mut I etc.): handled by the caller
-                        return ('deref', s.pick(s.index[key]))
-                    return s.pick(s.index[key])
+            if (trait, pre + head, meth) in s.index:
+                return s.pick(s.index[(trait, pre + head, meth)])
+            if pre == '&mut ' and trait in ('Iterator', 'DoubleEndedIterator', 'ExactSizeIterator') and (trait, head, meth) in s.index:
+                # core's forwarding impls `impl<I: Iterator> Iterator for &mut I`: handled by the caller (argument dereferenced)
+                return ('deref', s.pick(s.index[(trait, head, meth)]))
+            if not pre and (trait, head, meth) in s.index:
+                return s.pick(s.index[(trait, head, meth)])
             if (trait, meth) in s.defaults and head in ('GenericArray', 'Box'):
-                return s.pick(s.defaults[(trait, meth)])
+                return ('default', s.pick(s.defaults[(trait, meth)]), pre + head)
         m = re.match(r'^<Self as (\w+)(?:<.*>)?>::(\w+)$', c)
         if m and s.self_binding:
             key = (m.group(1), s.self_binding, m.group(2))
@@ -392,21 +454,21 @@ class Exec:
 
     def ev_drop_range(s, st, arr, a, b, where, what='drop'):
         J = s.J
-        s.require(st, z3.And(z3.ULE(a, b), z3.ULE(b, arr.len)), 'range outside the array (get_unchecked precondition)', where)
-        inr = z3.And(z3.ULE(a, J), z3.ULT(J, b), z3.ULT(J, arr.len))
+        s.require(st, z3.And(ULE(a, b), ULE(b, arr.len)), 'range outside the array (get_unchecked precondition)', where)
+        inr = z3.And(ULE(a, J), ULT(J, b), ULT(J, arr.len))
         s.require(st, z3.Implies(inr, s.stat(st, arr) == LIVE),
                   'element dropped while not live (double drop / drop of uninitialised or moved-out slot)', where)
         st.status[arr] = z3.If(inr, DROPPED, st.status[arr])
         st.events.append('%s %s[%s..%s)' % (what, arr.name, z3.simplify(a), z3.simplify(b)))
 
     def ev_move_out(s, st, arr, i, where):
-        s.require(st, z3.ULT(i, arr.len), 'element read out of bounds', where)
+        s.require(st, ULT(i, arr.len), 'element read out of bounds', where)
         s.require(st, z3.Implies(i == s.J, s.stat(st, arr) == LIVE), 'element read after it was moved out or dropped', where)
         st.status[arr] = z3.If(i == s.J, HELD, st.status[arr])
         st.events.append('read %s[%s]' % (arr.name, z3.simplify(i)))
 
     def ev_write(s, st, arr, i, val, where):
-        s.require(st, z3.ULT(i, arr.len), 'element written out of bounds', where)
+        s.require(st, ULT(i, arr.len), 'element written out of bounds', where)
         s.require(st, z3.Implies(i == s.J, s.stat(st, arr) != LIVE), 'live element overwritten without drop', where)
         st.status[arr] = z3.If(i == s.J, LIVE, st.status[arr])
         st.events.append('write %s[%s]' % (arr.name, z3.simplify(i)))
@@ -544,25 +606,45 @@ class Exec:
             return s.load(st, fr, s.parse_place(t[5:]))
         if t.startswith('const '):
             return s.const(t[6:])
+        if re.fullmatch(r'<\w+ as [\w:]+>::\w+', t):      # a function item used as a value (e.g. <T as Clone>::clone)
+            return Opaque(t)
         raise NotImplementedError('operand ' + t)
 
     def div(s, st, a, b, rem=False):
         """64-bit udiv/urem via fresh q, r and the division lemma (raw bvudiv on symbolic operands does not finish)"""
+        if is_int():
+            return (a % b) if rem else (a / b)
         st.calls += 1
-        q, r = z3.BitVec('q%d' % next(State._ids), W), z3.BitVec('r%d' % next(State._ids), W)
-        st.pc += [z3.ULT(r, b), z3.BVMulNoOverflow(q, b, False), z3.BVAddNoOverflow(q * b, r, False), a == q * b + r]
+        q, r = mkint('q%d' % next(State._ids)), mkint('r%d' % next(State._ids))
+        st.pc += [ULT(r, b), MULOK(q, b), ADDOK(q * b, r), a == q * b + r]
         return r if rem else q
+
+    def slice_len(s, st, a):
+        """number of elements of a slice value; for a slice of chunks that is the chunk count q with q * stride == extent"""
+        if a.stride is None:
+            return a.end - a.start
+        q = mkint('chunks%d' % next(State._ids))
+        if is_int():
+            st.pc.append(z3.And(q >= 0, q < TWO64))
+        st.pc += [MULOK(q, a.stride), q * a.stride == a.end - a.start]
+        return q
 
     def rvalue(s, st, fr, t):
         t = t.strip()
         m = re.fullmatch(r'(AddWithOverflow|SubWithOverflow|MulWithOverflow)\((.+)\)', t)
         if m:
             a, b = [s.operand(st, fr, x) for x in split_top(m.group(2))]
+            if is_int():
+                if m.group(1)[0] == 'A':
+                    return {0: z3.If(a + b >= TWO64, a + b - TWO64, a + b), 1: a + b >= TWO64}
+                if m.group(1)[0] == 'S':
+                    return {0: z3.If(a < b, a - b + TWO64, a - b), 1: a < b}
+                return {0: z3.If(a * b >= TWO64, (a * b) % TWO64, a * b), 1: a * b >= TWO64}
             if m.group(1)[0] == 'A':
-                return {0: a + b, 1: z3.Not(z3.BVAddNoOverflow(a, b, False))}
+                return {0: a + b, 1: z3.Not(ADDOK(a, b))}
             if m.group(1)[0] == 'S':
-                return {0: a - b, 1: z3.ULT(a, b)}
-            return {0: a * b, 1: z3.Not(z3.BVMulNoOverflow(a, b, False))}
+                return {0: a - b, 1: ULT(a, b)}
+            return {0: a * b, 1: z3.Not(MULOK(a, b))}
         m = re.fullmatch(r'(Lt|Gt|Le|Ge|Eq|Ne|Add|Sub|Mul|Div|Rem|BitAnd|BitOr|Shr|Shl|AddUnchecked|SubUnchecked|MulUnchecked|ShrUnchecked|ShlUnchecked)\((.+)\)', t)
         if m:
             a, b = [s.operand(st, fr, x) for x in split_top(m.group(2))]
@@ -571,9 +653,15 @@ class Exec:
                 return s.div(st, a, b, rem=(op == 'Rem'))
             if z3.is_bool(a) and op in ('Eq', 'Ne'):
                 return (a == b) if op == 'Eq' else (a != b)
-            return {'Lt': z3.ULT, 'Gt': z3.UGT, 'Le': z3.ULE, 'Ge': z3.UGE, 'Eq': lambda x, y: x == y, 'Ne': lambda x, y: x != y,
+            if is_int() and op in ('BitAnd', 'BitOr', 'Shl'):
+                if op == 'BitAnd' and z3.is_int_value(b) and (b.as_long() + 1) & b.as_long() == 0:
+                    return a % (b.as_long() + 1)
+                if op == 'Shl' and z3.is_int_value(b):
+                    return (a * 2 ** b.as_long()) % TWO64
+                raise NotImplementedError('bit operation %s in integer mode' % op)
+            return {'Lt': ULT, 'Gt': UGT, 'Le': ULE, 'Ge': UGE, 'Eq': lambda x, y: x == y, 'Ne': lambda x, y: x != y,
                     'Add': lambda x, y: x + y, 'Sub': lambda x, y: x - y, 'Mul': lambda x, y: x * y,
-                    'BitAnd': lambda x, y: x & y, 'BitOr': lambda x, y: x | y, 'Shr': z3.LShR, 'Shl': lambda x, y: x << y}[op](a, b)
+                    'BitAnd': lambda x, y: x & y, 'BitOr': lambda x, y: x | y, 'Shr': LSHR, 'Shl': lambda x, y: x << y}[op](a, b)
         m = re.fullmatch(r'Not\((.+)\)', t)
         if m:
             a = s.operand(st, fr, m.group(1))
@@ -582,7 +670,7 @@ class Exec:
         if m:
             v = s.operand(st, fr, m.group(1))
             if isinstance(v, Slice):
-                return v.end - v.start
+                return s.slice_len(st, v)
             raise NotImplementedError('PtrMetadata of ' + str(type(v)))
         if t.startswith('&'):
             pl = s.parse_place(re.sub(r'^&(raw mut |raw const |mut )?', '', t))
@@ -600,6 +688,16 @@ class Exec:
         if m:
             v = s.operand(st, fr, m.group(1))
             ty = m.group(2)
+            if 'Unsize' in m.group(3):
+                mo = re.fullmatch(r'(?:copy|move) (_\d+)', m.group(1).strip())
+                lty = s.cur_fn.ltypes.get(mo.group(1), '') if mo else ''
+                ml = re.search(r'; (\d+)\]$', lty)
+                if ml and isinstance(v, (Opaque, Ref)) and ml.group(1) == '0':
+                    return Slice(Arr('empty', bv(0)), bv(0), bv(0))   # &[X; 0] -> &[X]
+                if ml and isinstance(v, ArrRef):
+                    return Slice(v.arr, bv(0), v.arr.len)
+                if ml and isinstance(v, Opaque):
+                    return Slice(Arr('const', bv(int(ml.group(1)))), bv(0), bv(int(ml.group(1))))
             if isinstance(v, ElemPtr) and re.search(r'GenericArray<', ty):
                 return ElemPtr(v.arr, v.idx, cast=norm(ty))
             if isinstance(v, ArrRef) and re.fullmatch(r'\*(const|mut) (T|MaybeUninit<T>)', norm(ty)):
@@ -631,6 +729,11 @@ class Exec:
             return dict(enumerate(s.operand(st, fr, x.split(': ', 1)[1]) for x in split_top(m.group(2))))
         if (t.startswith('(') and t.endswith(')') and not t.startswith(('(*', '(('))) or re.fullmatch(r'\((copy|move|const) .*\)', t):
             return dict(enumerate(s.operand(st, fr, x) for x in split_top(t[1:-1])))
+        m = re.fullmatch(r'\[const 0_u8; (\d+)\]', t)
+        if m:
+            st.calls += 1
+            a = Arr('Stack%d' % st.calls, bv(int(m.group(1))), kind='bytes')
+            return a
         m = re.fullmatch(r'\[(.*)\]', t)
         if m:
             return dict(enumerate(s.operand(st, fr, x) for x in split_top(m.group(1))))
@@ -645,7 +748,7 @@ class Exec:
         k = r['kind']
         if k in ('slice', 'rslice'):
             out = []
-            has = z3.ULT(r['pos'], r['end'])
+            has = ULT(r['pos'], r['end'])
             if s.feasible(st, has):
                 s1 = st.clone()
                 s1.pc.append(has)
@@ -693,6 +796,23 @@ class Exec:
                         if isinstance(va, Elem):
                             s.ev_drop_elem(s2, va, where)
                     out.append((s2, kb, {0: va, 1: vb} if kb == 'some' else vb))
+            return out
+        if k == 'chunks':
+            out = []
+            has = ULT(r['pos'], r['end'])
+            if s.feasible(st, has):
+                s1 = st.clone()
+                s1.pc.append(has)
+                i1 = s1.get(cell, path)
+                rem = i1['end'] - i1['pos']
+                ln = z3.If(ULE(i1['size'], rem), i1['size'], rem)
+                v = Slice(i1['arr'], i1['pos'], i1['pos'] + ln)
+                i1['pos'] = i1['pos'] + ln
+                out.append((s1, 'some', v))
+            if s.feasible(st, z3.Not(has)):
+                s2 = st.clone()
+                s2.pc.append(z3.Not(has))
+                out.append((s2, 'none', None))
             return out
         if k == 'take':
             rem = r['n']
@@ -743,7 +863,7 @@ class Exec:
                 r1['ended'] = z3.BoolVal(True)
                 s1.events.append('source.next() -> None')
                 out.append((s1, 'none', None))
-            more = z3.ULT(r['yielded'], r['count'])
+            more = ULT(r['yielded'], r['count'])
             if s.feasible(st, more):
                 s1 = st.clone()
                 s1.pc.append(more)
@@ -766,10 +886,10 @@ class Exec:
             return r['hint']
         if r['kind'] == 'zip':
             a, b = s.size_hint(st, r['a']), s.size_hint(st, r['b'])
-            lo = z3.If(z3.ULE(a[0], b[0]), a[0], b[0])
+            lo = z3.If(ULE(a[0], b[0]), a[0], b[0])
             if a[1].variant == 'Some' and b[1].variant == 'Some':
                 x, y = a[1].fields[0], b[1].fields[0]
-                hi = Enum('Some', {0: z3.If(z3.ULE(x, y), x, y)})
+                hi = Enum('Some', {0: z3.If(ULE(x, y), x, y)})
             else:
                 hi = a[1] if a[1].variant == 'Some' else b[1]
             return {0: lo, 1: hi}
@@ -834,7 +954,36 @@ class Exec:
 
     # ---------------------------------------------------------------- calls
     def call(s, st, callee, args, where):
+        cn = norm(callee)
+        # stubs that take precedence over the crate's own bodies (hex encoder contract, the 2N-byte scratch buffer)
+        if re.match(r'^hex_encode(_fallback)?::<UPPER>$', cn):
+            src, dst = args
+            sl, dl = src.end - src.start, dst.end - dst.start
+            s.summaries_used.add('hex_encode / hex_encode_fallback (stub: contract dst.len() >= 2 * src.len(), writes the digits of src into dst[..2 * src.len()])')
+            s.require(st, UGE(dl, sl + sl), 'hex encoder called with a destination shorter than 2 * source (unreachable_unchecked / unwrap_unchecked precondition)', where)
+            st.notes = dict(st.notes)
+            st.notes['encoded'] = st.notes.get('encoded', []) + [(src, dst)]
+            return [(st, 'ret', UNIT)]
+        if re.match(r'^<GenericArray<u8, <N as (core::ops::)?Add>::Output> as Default>::default$', cn):
+            st.calls += 1
+            s.summaries_used.add('GenericArray::<u8, Sum<N, N>>::default() (stub: a zeroed buffer of N + N bytes)')
+            return [(st, 'ret', Arr('Buf%d' % st.calls, s.N + s.N, kind='bytes'))]
         fn = s.find_fn(callee)
+        if fn is not None and not isinstance(fn, tuple) and re.search(r'GenericArray<u8, <N as (core::ops::)?Add>::Output>', callee):
+            # the callee is instantiated at length N + N: bind its `N::USIZE`
+            saved = dict(s.consts)
+            s.consts['N'] = s.consts.get('N', s.N) + s.consts.get('N', s.N)
+            try:
+                return s.run_fn(st, fn, args)
+            finally:
+                s.consts = saved
+        if isinstance(fn, tuple) and fn[0] == 'default':      # trait-provided body: `Self` is bound for its duration
+            saved = s.self_binding
+            s.self_binding = fn[2]
+            try:
+                return s.run_fn(st, fn[1], args)
+            finally:
+                s.self_binding = saved
         if isinstance(fn, tuple):      # &mut I forwarding impl
             a0 = args[0]
             if isinstance(a0, Ref):
@@ -859,17 +1008,17 @@ class Exec:
             v = st.get(a.cell, a.path)
             return R(ArrRef(v) if isinstance(v, Arr) else a)
         if re.search(r'(^|::)min::<usize>', c):
-            return R(z3.If(z3.ULE(args[0], args[1]), args[0], args[1]))
+            return R(z3.If(ULE(args[0], args[1]), args[0], args[1]))
         if re.search(r'from_raw_parts(_mut)?::<', c):
             p, n = args
             if isinstance(p, ArrRef):
                 p = ElemPtr(p.arr, bv(0))
             if p.cast and 'GenericArray<' in p.cast:
                 # slice of chunks: n chunks of N elements each starting at element p.idx
-                s.require(st, z3.And(z3.BVMulNoOverflow(n, s.N, False), z3.BVAddNoOverflow(p.idx, n * s.N, False),
-                                     z3.ULE(p.idx + n * s.N, p.arr.len)), 'from_raw_parts: chunk slice extends beyond the source', where)
+                s.require(st, z3.And(MULOK(n, s.N), ADDOK(p.idx, n * s.N),
+                                     ULE(p.idx + n * s.N, p.arr.len)), 'from_raw_parts: chunk slice extends beyond the source', where)
                 return R(Slice(p.arr, p.idx, p.idx + n * s.N, stride=s.N))
-            s.require(st, z3.And(z3.BVAddNoOverflow(p.idx, n, False), z3.ULE(p.idx + n, p.arr.len)),
+            s.require(st, z3.And(ADDOK(p.idx, n), ULE(p.idx + n, p.arr.len)),
                       'from_raw_parts: slice extends beyond the source', where)
             return R(Slice(p.arr, p.idx, p.idx + n))
         if re.search(r'slice_from_raw_parts(_mut)?::<', c):
@@ -884,20 +1033,20 @@ class Exec:
                 sl = Slice(sl.arr, bv(0), sl.arr.len)
             ln = sl.end - sl.start
             a, b = {'Range': lambda: (r[0], r[1]), 'RangeTo': lambda: (bv(0), r[0]), 'RangeFrom': lambda: (r[0], ln)}[m.group(2)]()
-            s.require(st, z3.And(z3.ULE(a, b), z3.ULE(b, ln)), 'get_unchecked(range) out of bounds', where)
+            s.require(st, z3.And(ULE(a, b), ULE(b, ln)), 'get_unchecked(range) out of bounds', where)
             return R(Slice(sl.arr, sl.start + a, sl.start + b))
         if re.search(r'get_unchecked(_mut)?::<usize>', c):
             sl, i = args
             if isinstance(sl, ArrRef):
                 sl = Slice(sl.arr, bv(0), sl.arr.len)
-            s.require(st, z3.ULT(i, sl.end - sl.start), 'get_unchecked(index) out of bounds', where)
+            s.require(st, ULT(i, sl.end - sl.start), 'get_unchecked(index) out of bounds', where)
             return R(ElemPtr(sl.arr, sl.start + i))
         if re.match(r'(ptr::)?drop_in_place::<\[T\]>', c):
             sl = args[0]
             s.ev_drop_range(st, sl.arr, sl.start, sl.end, where)
             outs = [(st, 'ret', UNIT)]
             s2 = st.clone()
-            ne = z3.ULT(sl.start, sl.end)
+            ne = ULT(sl.start, sl.end)
             nd = s.needs_drop.get('T')
             cond = ne if nd is None else z3.And(ne, nd)
             if s.feasible(s2, cond):
@@ -940,7 +1089,7 @@ class Exec:
             return R(args[0])
         if re.match(r'MaybeUninit::<GenericArray<T, N>>::assume_init', c):
             a = args[0]
-            s.require(st, z3.Implies(z3.ULT(s.J, a.len), s.stat(st, a) == LIVE),
+            s.require(st, z3.Implies(ULT(s.J, a.len), s.stat(st, a) == LIVE),
                       'array with an uninitialised / dead slot released as complete', where)
             return R(a)
         if re.match(r'MaybeUninit::<T>::write', c):
@@ -975,11 +1124,7 @@ class Exec:
             a = args[0]
             if isinstance(a, ArrRef):
                 return R(a.arr.len)
-            if a.stride is not None:
-                q = z3.BitVec('chunks%d' % next(State._ids), W)
-                st.pc += [z3.BVMulNoOverflow(q, a.stride, False), q * a.stride == a.end - a.start]
-                return R(q)
-            return R(a.end - a.start)
+            return R(s.slice_len(st, a))
         if re.search(r'::is_empty$', c) and '<impl [' in c:
             a = args[0]
             return R(a.end == a.start)
@@ -997,7 +1142,7 @@ class Exec:
         if re.match(r'Box::<MaybeUninit<GenericArray<T, N>>>::assume_init', c):
             b = args[0]
             a = b.ptr.block.arr
-            s.require(st, z3.Implies(z3.ULT(s.J, a.len), s.stat(st, a) == LIVE), 'boxed array with an uninitialised slot released as complete', where)
+            s.require(st, z3.Implies(ULT(s.J, a.len), s.stat(st, a) == LIVE), 'boxed array with an uninitialised slot released as complete', where)
             return R(BoxVal(b.ptr, init=True))
         if re.match(r'MaybeUninit::<GenericArray<T, N>>::as_mut_ptr', c):
             a = args[0]
@@ -1070,6 +1215,93 @@ class Exec:
         if re.match(r'<F as FnMut<', c) or re.match(r'<F as FnOnce<', c):
             a = args[1] if len(args) > 1 else {}
             return s.extern_call(st, list(a.values()) if isinstance(a, dict) else [a], where, 'f')
+        if re.search(r'Argument::<.*>::new_(display|debug)', c):
+            return R(Opaque('fmt::Argument'))
+        if re.search(r'Arguments::<.*>::(from_str|new_const|new_v1|new)', c) or re.search(r'Arguments::(from_str|new_const)', c):
+            return R(Opaque('fmt::Arguments'))
+        # ---- hex formatting: formatter, checked indexing, chunking, the encoder contract
+        if re.match(r'Formatter::<.*>::precision$', c):
+            s2 = st.clone()
+            P = mkint('precision')
+            if is_int():
+                s2.pc.append(z3.And(P >= 0, P < TWO64))
+            s2.notes = dict(s2.notes); s2.notes['precision'] = P
+            st.notes = dict(st.notes); st.notes['precision'] = None
+            return [(st, 'ret', Enum('None', {})), (s2, 'ret', Enum('Some', {0: P}))]
+        if re.match(r'<\[u8\] as Index<RangeTo<usize>>>::index$', c):
+            sl, r = args
+            ln = sl.end - sl.start
+            outs = []
+            if s.feasible(st, ULE(r[0], ln)):
+                s1 = st.clone(); s1.pc.append(ULE(r[0], ln))
+                outs.append((s1, 'ret', Slice(sl.arr, sl.start, sl.start + r[0])))
+            if s.feasible(st, UGT(r[0], ln)):
+                s2 = st.clone(); s2.pc.append(UGT(r[0], ln)); s2.events.append('slice index out of range: panic')
+                outs.append((s2, 'unwind', None))
+            return outs
+        if re.match(r'<GenericArray<u8, <N as (core::ops::)?Add>::Output> as Default>::default$', c):
+            st.calls += 1
+            return R(Arr('Buf%d' % st.calls, s.N + s.N, kind='bytes'))
+        if re.match(r'hex_encode(_fallback)?::<UPPER>$', c):
+            src, dst = args
+            sl, dl = src.end - src.start, dst.end - dst.start
+            s.require(st, UGE(dl, sl + sl), 'hex encoder called with a destination shorter than 2 * source (unreachable_unchecked / unwrap_unchecked precondition)', where)
+            st.notes = dict(st.notes)
+            st.notes['encoded'] = st.notes.get('encoded', []) + [(src, dst)]
+            return R(UNIT)
+        if re.search(r'(^|::)from_utf8_unchecked$', c):
+            return R(args[0])
+        if re.match(r'Formatter::<.*>::write_str$', c):
+            sl = args[1]
+            st.notes = dict(st.notes)
+            st.notes['written'] = st.notes.get('written', []) + [sl]
+            s2 = st.clone()
+            s2.events.append('write_str -> Err')
+            return [(st, 'ret', Enum('Ok', {0: UNIT})), (s2, 'ret', Enum('Err', {0: UNIT}))]
+        if re.search(r' as Try>::branch$', c):
+            v = args[0]
+            return R(Enum('Continue' if v.variant == 'Ok' else 'Break', dict(v.fields)))
+        if re.search(r' as FromResidual<.*>>::from_residual$', c):
+            return R(Enum('Err', {0: UNIT}))
+        if re.search(r'<impl \[u8\]>::chunks$', c):
+            sl, size = args
+            return R({'kind': 'chunks', 'arr': sl.arr, 'pos': sl.start, 'end': sl.end, 'size': size})
+        if re.match(r'<Chunks<.*> as Iterator>::next$', c):
+            r = args[0]
+            it = st.get(r.cell, r.path)
+            outs = []
+            has = ULT(it['pos'], it['end'])
+            if s.feasible(st, has):
+                s1 = st.clone(); s1.pc.append(has)
+                i1 = s1.get(r.cell, r.path)
+                rem = i1['end'] - i1['pos']
+                ln = z3.If(ULE(i1['size'], rem), i1['size'], rem)
+                v = Slice(i1['arr'], i1['pos'], i1['pos'] + ln)
+                i1['pos'] = i1['pos'] + ln
+                outs.append((s1, 'ret', Enum('Some', {0: v})))
+            if s.feasible(st, z3.Not(has)):
+                s2 = st.clone(); s2.pc.append(z3.Not(has))
+                outs.append((s2, 'ret', Enum('None', {})))
+            return outs
+        # ---- delegation targets: the slice's own trait methods and core::fmt builders stay UNINTERPRETED; the call is recorded
+        m = re.match(r'^<\[T\] as (PartialEq|PartialOrd|Ord|Hash|Debug)>::(eq|ne|partial_cmp|cmp|hash|fmt|lt|le|gt|ge)(::<.*>)?$', c)
+        if m:
+            st.calls += 1
+            r = Opaque('result of <[T] as %s>::%s #%d' % (m.group(1), m.group(2), st.calls))
+            st.notes = dict(st.notes)
+            st.notes['delegated'] = st.notes.get('delegated', []) + [(m.group(1) + '::' + m.group(2), args, r)]
+            return R(r)
+        m = re.match(r'^(Formatter::<.*>::debug_tuple|DebugTuple::<.*>::field|DebugTuple::<.*>::finish)$', c)
+        if m:
+            st.calls += 1
+            kind = m.group(1).split('::')[-1]
+            r = Opaque('%s #%d' % (kind, st.calls))
+            a = list(args)
+            if kind == 'field' and isinstance(a[1], Ref):
+                a[1] = st.get(a[1].cell, a[1].path)
+            st.notes = dict(st.notes)
+            st.notes['fmt'] = st.notes.get('fmt', []) + [(kind, a, r)]
+            return R(r)
         # ---- panics
         if re.search(r'(panic_fmt|panicking::panic|panic_display|panic_nounwind|from_iter_length_fail|assert_failed)', c):
             st.events.append('panic: ' + c[:60])
@@ -1106,7 +1338,9 @@ class Exec:
                 a = v.ptr.block.arr
                 return s._drop_whole(st, a, where, after=lambda s1: s1.blocks.__setitem__(v.ptr.block, 'freed'))
             return [(st, 'ret')]
-        if re.match(r'GenericArray<\w+, ', head):
+        if head.startswith('GenericArray<u8, '):
+            return [(st, 'ret')]
+        if re.match(r'GenericArray<\w+, ', head) or (head == 'Self' and isinstance(v, Arr)):
             if isinstance(v, Arr):
                 return s._drop_whole(st, v, where)
             return [(st, 'ret')]
@@ -1132,7 +1366,7 @@ class Exec:
         if after:
             after(st)
         s2 = st.clone()
-        ne = z3.ULT(bv(0), arr.len)
+        ne = ULT(bv(0), arr.len)
         outs = [(st, 'ret')]
         if s.feasible(s2, ne):
             s2.pc.append(ne)
@@ -1154,6 +1388,7 @@ class Exec:
             if cnt > 4 * (s.loop_cap + 2) and len(fn.blocks) > 1:
                 raise Inconclusive('unwinding assertion: block %s of %s visited more than %d times on one path' % (bb, fn.name, 4 * (s.loop_cap + 2)))
             stmts = fn.blocks[bb]
+            s.cur_fn = fn
             for line in stmts[:-1]:
                 if line.startswith(('StorageLive', 'StorageDead', 'nop', 'ConstEvalCounter', 'Retag', 'FakeRead', 'PlaceMention', 'Coverage', 'AscribeUserType')):
                     continue
@@ -1161,7 +1396,7 @@ class Exec:
                     continue
                 lhs, rhs = line.rstrip(';').split(' = ', 1)
                 s.store(st, fr, s.parse_place(lhs), s.rvalue(st, fr, rhs))
-            term = stmts[-1]
+            term = re.sub(r'"(?:[^"\\]|\\.)*"', lambda mm: '"' + re.sub(r'[^\w ]', '_', mm.group(0)[1:-1]) + '"', stmts[-1])
             where = '%s:%s' % (fn.name.split('>::')[-1], bb)
             if term == 'return;':
                 results.append((st, 'ret', st.heap.get(fr.get('_0'), UNIT)))
@@ -1185,7 +1420,7 @@ class Exec:
                     if k == 'otherwise':
                         cond = z3.And(*[z3.Not(c) for c in taken]) if taken else z3.BoolVal(True)
                     else:
-                        cond = (v == bv(int(k))) if z3.is_bv(v) else (v if int(k) != 0 else z3.Not(v))
+                        cond = (v == bv(int(k))) if (z3.is_bv(v) or z3.is_int(v)) else (v if int(k) != 0 else z3.Not(v))
                         taken.append(cond)
                     arms.append((cond, tgt))
                 for cond, tgt in arms:
@@ -1237,41 +1472,55 @@ class Exec:
                     else:
                         work.append((s2, f2, re.match(r': (bb\d+)', unw).group(1)))
                 continue
-            m = re.fullmatch(r'(.+?) = (.+)\((.*)\) -> \[return: (bb\d+), unwind(.+)\];', term)
-            if m:
-                lhs, callee, argstr, ret, unw = m.groups()
+            pc_ = parse_call(term) if ' = ' in term else None
+            if pc_:
+                lhs, callee, argstr, rest = pc_
                 av = [s.operand(st, fr, a) for a in split_top(argstr)]
+                mret = re.fullmatch(r'\[return: (bb\d+), unwind(.+)\]', rest)
+                if mret:
+                    ret, unw = mret.group(1), mret.group(2).strip()
+                else:
+                    ret, unw = None, rest.strip()
+                    if unw.startswith('unwind'):
+                        unw = unw[len('unwind'):].strip()
+                    elif re.fullmatch(r'bb\d+', unw):
+                        unw = ': ' + unw
                 for (s2, kind, val) in s.call(st.clone(), callee, av, where):
                     f2 = dict(fr)
                     if kind == 'ret':
+                        if ret is None:
+                            continue
                         s.store(s2, f2, s.parse_place(lhs), val)
                         work.append((s2, f2, ret))
-                    elif unw.strip() == 'continue':
+                    elif unw == 'continue':
                         results.append((s2, 'unwind', None))
-                    elif unw.strip().startswith('terminate'):
-                        pass
-                    elif unw.strip() == 'unreachable':
-                        pass
-                    else:
-                        work.append((s2, f2, re.match(r': (bb\d+)', unw).group(1)))
-                continue
-            m = re.fullmatch(r'(.+?) = (.+)\((.*)\) -> unwind(.+);', term)
-            if m:      # diverging call
-                lhs, callee, argstr, unw = m.groups()
-                av = [s.operand(st, fr, a) for a in split_top(argstr)]
-                for (s2, kind, val) in s.call(st.clone(), callee, av, where):
-                    f2 = dict(fr)
-                    if kind != 'unwind':
-                        continue
-                    if unw.strip() == 'continue':
-                        results.append((s2, 'unwind', None))
-                    elif unw.strip().startswith(('terminate', 'unreachable')):
+                    elif unw.startswith(('terminate', 'unreachable')):
                         pass
                     else:
                         work.append((s2, f2, re.match(r': (bb\d+)', unw).group(1)))
                 continue
             raise NotImplementedError('terminator ' + term)
         return results
+
+
+def parse_call(term):
+    """`lhs = callee(args) -> rest;`  ->  (lhs, callee, argstr, rest) with the argument list found by bracket matching from the right"""
+    k = term.find(') -> ')
+    while k != -1:
+        head, rest = term[:k + 1], term[k + 5:]
+        if ' = ' in head:
+            depth = 0
+            for i in range(len(head) - 1, -1, -1):
+                ch = head[i]
+                if ch == ')':
+                    depth += 1
+                elif ch == '(':
+                    depth -= 1
+                    if depth == 0:
+                        lhs, callee = head[:i].split(' = ', 1)
+                        return lhs, callee, head[i + 1:-1], rest.rstrip(';')
+        k = term.find(') -> ', k + 1)
+    return None
 
 
 def model_str(m):
